@@ -1182,3 +1182,124 @@ Qed.
 Lemma eebus_keeps_names_and_literals d :
   names_of (to_eebus d) = names_of d /\ scalars_of (to_eebus d) = scalars_of d.
 Proof. split; [apply names_eebus|apply scalars_eebus]. Qed.
+
+(* ================================================================== 9. end to end: the SHIP data envelope
+   The message on the wire is the converted envelope with the converted payload spliced in
+   without its outer brackets; the receiver converts the whole text back. *)
+Lemma envelope_ok_true : envelope_ok = true.
+Proof. vm_compute. reflexivity. Qed.
+
+Definition Ldata := L (quoted (hx "64617461")).
+Definition Lheader := L (quoted (hx "686561646572")).
+Definition Lpid := L (quoted (hx "70726f746f636f6c4964")).
+Definition Lee := L (quoted ship_protocol_id).
+Definition Lpayload := L (quoted (hx "7061796c6f6164")).
+
+(* tokens of the message before and after the payload, stage by stage *)
+Definition pre0 : list tok :=
+  [LC; Ldata; CL; LB; LC; Lheader; CL; LB; LC; Lpid; CL; Lee; RC; RB; RC; CM; LC; Lpayload; CL].
+Definition suf0 : list tok := [RC; RB; RC].
+Definition pre4 : list tok :=
+  [LC; Ldata; CL; LC; Lheader; CL; LC; Lpid; CL; Lee; RC; CM; Lpayload; CL].
+Definition suf4 : list tok := [RC; RC].
+
+(* strings.ReplaceAll(eebusMsg, "[" + placeholder + "]", payload) *)
+Lemma splice rep :
+  replace_all (91 :: ship_payload_placeholder ++ [93]) rep (wire (envelope placeholder_doc))
+  = flat pre0 ++ rep ++ flat suf0.
+Proof. vm_compute. reflexivity. Qed.
+
+Lemma pass1_top_rest ms r : rp1 (tt 0 ms ++ RC :: r) = tt 1 ms ++ rp1 (RC :: r).
+Proof.
+  unfold tt. change (sep 0) with [RC; CM; LC]. change (sep 1) with [RC; CM; LC].
+  cbn [app]. rewrite <- !app_assoc.
+  change (rp1 (LC :: ?t)) with (LC :: rp1 t). f_equal.
+  rewrite (pass_seplist rp1 [RC; CM; LC] [RC; CM; LC] (memb 0) (memb 1)); [reflexivity|reflexivity|].
+  apply memb_pass; [reflexivity|reflexivity|].
+  apply Forall_forall. intros m _ rest. apply pass1.
+Qed.
+
+Lemma pass2_top_rest ms r : rp2 (tt 1 ms ++ RC :: r) = tt 2 ms ++ rp2 (RC :: r).
+Proof.
+  unfold tt. change (sep 1) with [RC; CM; LC]. change (sep 2) with [CM].
+  cbn [app]. rewrite <- !app_assoc.
+  change (rp2 (LC :: ?t)) with (LC :: rp2 t). f_equal.
+  rewrite (pass_seplist rp2 [RC; CM; LC] [CM] (memb 1) (memb 2)); [reflexivity|reflexivity|].
+  apply memb_pass; [reflexivity|reflexivity|].
+  apply Forall_forall. intros m _ rest. apply pass2.
+Qed.
+
+Lemma pass3_top_rest ms r : rp3 (tt 2 ms ++ RC :: r) = tt 3 ms ++ rp3 (RC :: r).
+Proof.
+  unfold tt. change (sep 2) with [CM]. change (sep 3) with [CM].
+  cbn [app]. rewrite <- !app_assoc.
+  change (rp3 (LC :: ?t)) with (LC :: rp3 t). f_equal.
+  rewrite (pass_seplist rp3 [CM] [CM] (memb 2) (memb 3)); [reflexivity|reflexivity|].
+  apply memb_pass; [reflexivity|reflexivity|].
+  apply Forall_forall. intros m _ rest. apply pass3.
+Qed.
+
+Lemma pass4_top_rest ms r : rp4 (tt 3 ms ++ RC :: r) = tt 4 ms ++ rp4 (RC :: r).
+Proof.
+  unfold tt. change (sep 3) with [CM]. change (sep 4) with [CM].
+  cbn [app]. rewrite <- !app_assoc.
+  change (rp4 (LC :: ?t)) with (LC :: rp4 t). f_equal.
+  rewrite (pass_seplist rp4 [CM] [CM] (memb 3) (memb 4)); [reflexivity|reflexivity|].
+  apply memb_pass; [reflexivity|reflexivity|].
+  apply Forall_forall. intros m _ rest. apply pass4.
+Qed.
+
+(* the passes walk over the fixed tokens in front of the payload *)
+Lemma pre_pass1 X : rp1 (pre0 ++ X) = rp1 pre0 ++ rp1 X.
+Proof. reflexivity. Qed.
+Lemma pre_pass2 X : rp2 (rp1 pre0 ++ X) = rp2 (rp1 pre0) ++ rp2 X.
+Proof. reflexivity. Qed.
+Lemma pre_pass3 X : rp3 (rp2 (rp1 pre0) ++ X) = rp3 (rp2 (rp1 pre0)) ++ rp3 X.
+Proof. reflexivity. Qed.
+Lemma pre_pass4 X : rp4 (rp3 (rp2 (rp1 pre0)) ++ X) = rp4 (rp3 (rp2 (rp1 pre0))) ++ rp4 X.
+Proof. reflexivity. Qed.
+
+Lemma envelope_passes ms : P4 (pre0 ++ tt 0 ms ++ suf0) = pre4 ++ tt 4 ms ++ suf4.
+Proof.
+  unfold P4, suf0.
+  rewrite pre_pass1, pass1_top_rest. change (rp1 [RC; RB; RC]) with [RC; RB; RC].
+  rewrite pre_pass2, pass2_top_rest. change (rp2 [RC; RB; RC]) with [RC; RB; RC].
+  rewrite pre_pass3, pass3_top_rest. change (rp3 [RC; RB; RC]) with [RC; RC].
+  rewrite pre_pass4, pass4_top_rest.
+  reflexivity.
+Qed.
+
+Theorem e2e_roundtrip d :
+  top_nonempty d = true -> lits_wf d = true ->
+  exists msg, ship_message d = Some msg /\
+              received_text msg = render (envelope (JS (render (norm d)))).
+Proof.
+  intros Htop Hlits. destruct d as [l|vs|[|m ms]]; try discriminate.
+  eexists. split; [reflexivity|].
+  unfold received_text. cbn [tl]. rewrite splice, wire_top, <- !flat_app.
+  unfold from_eebus. rewrite scans_true. unfold from_eebus_scanning.
+  assert (Hwf : forallb wf_tok (pre0 ++ tt 0 (m :: ms) ++ suf0) = true).
+  { rewrite !forallb_app. rewrite (tt_wf 0 _ Hlits). reflexivity. }
+  pose proof (scan_tokens _ [] eq_refl Hwf) as E.
+  change (rev (flat [])) with (@nil N) in E. cbn [app] in E. cbn [app]. rewrite E.
+  rewrite envelope_passes, tt4_norm.
+  unfold render. set (p := rt (norm (JO (m :: ms)))).
+  change (rt (envelope (JS (flat p)))) with (pre4 ++ [L (flat p)] ++ suf4).
+  rewrite !flat_app. change (flat [L (flat p)]) with (flat p ++ []). rewrite app_nil_r.
+  replace (flat pre4 ++ flat p ++ flat suf4) with (123 :: (tl (flat pre4) ++ flat p ++ [125]) ++ [125]).
+  2: { change (flat pre4) with (123 :: tl (flat pre4)). change (flat suf4) with [125; 125].
+       cbn [app]. rewrite <- !app_assoc. reflexivity. }
+  apply trim_braces.
+Qed.
+
+(* the end-to-end monitor on the model: only the empty-array class can ever show *)
+Theorem e2e_monitor d :
+  top_nonempty d = true -> lits_wf d = true ->
+  incl (e2e_codes d (Some (render (norm d)))) [11] /\
+  (has_empty_array d = false -> e2e_codes d (Some (render (norm d))) = []).
+Proof.
+  intros H1 H2. unfold e2e_codes, roundtrip_codes. split.
+  - destruct (bytes_eqb (render (norm d)) (render d)); [intros x []|].
+    rewrite bytes_eqb_refl. apply incl_refl.
+  - intros H3. rewrite norm_id by assumption. rewrite bytes_eqb_refl. reflexivity.
+Qed.
